@@ -65,3 +65,25 @@ fn bloom_is_set_contract_1024_thorough() {
     kani::assume(idx <= b.size as usize);
     assert!(b.is_set(idx) == spec_bit(&b.bitset, idx));
 }
+
+//@harness bloom_set_contract_4096_thorough props=C14,C13,C20 target=Bloom::set bounded=no claim=same contract for the 4096-bit layout (64 words)
+#[kani::proof]
+fn bloom_set_contract_4096_thorough() {
+    let mut b = arbitrary_bloom::<64>();
+    let idx: usize = kani::any();
+    let j: usize = kani::any();
+    kani::assume(idx <= b.size as usize && j <= b.size as usize);
+    let before = spec_bit(&b.bitset, j);
+    b.set(idx);
+    assert!(b.bitset.len() == 64);
+    assert!(spec_bit(&b.bitset, j) == (j == idx || before));
+}
+
+//@harness bloom_is_set_contract_4096_thorough props=C14,C13,C20 target=Bloom::is_set bounded=no claim=same contract for the 4096-bit layout (64 words)
+#[kani::proof]
+fn bloom_is_set_contract_4096_thorough() {
+    let b = arbitrary_bloom::<64>();
+    let idx: usize = kani::any();
+    kani::assume(idx <= b.size as usize);
+    assert!(b.is_set(idx) == spec_bit(&b.bitset, idx));
+}
